@@ -288,4 +288,53 @@ def r3_generated(a, tier):
     return rep
 
 
-RULES = [r1_placement, r2_folding, r3_generated]
+def r4_accepted_names_unchanged(a, tier):
+    from ..minieval import Obj, Raised, Unsupported
+    from ..modelinterp import Bound, Hook, ModelInterp, Stub
+    rep = RuleReport(
+        'C11.R4',
+        'the keyword check only accepts or rejects: semantics_call with validate_is_not_keyword (both interpreted on a stand-in engine), for '
+        'a rule decorated @name, with and without ignorecase, with and without a semantic action, raises the keyword failure for a '
+        'reserved word (in any case spelling when ignorecase is on) and otherwise hands on the VALUE THE RULE MATCHED, unchanged - to the '
+        'action as its argument, or back to the caller: what an @name rule returns for a non-keyword is what the undecorated rule returns',
+        floor=12,
+    )
+    sc = a.p.func(f'{ENGINE}.semantics_call')
+
+    class Name(str):
+        """the value of the rule (a str subclass instance: `is` tells whether it was handed on or rebuilt)"""
+    for ignorecase, with_action in ((False, False), (True, False), (False, True), (True, True)):
+        keywords = {'IF', 'if'} if ignorecase else {'if'}  # folded table: whichever folding (upper / lower / casefold) the engine uses
+        for text in ('foo', 'Foo', 'FOO', 'if', 'IF', 'iF', 'ifx'):
+            is_kw = (text.upper() == 'IF') if ignorecase else (text in keywords)
+            node = Name(text)
+            seen: list = []
+            action = Hook(lambda *x, **k: 'ACTION-RESULT')
+            me = Stub(ENGINE, config=Obj(ignorecase=ignorecase, parseinfo=False), keywords=keywords, pos=3,
+                      find_semantic_action=Hook(lambda n: action if with_action else None), newexcept=Hook(lambda *x, **k: Stub('tatsu.exceptions.KeywordError')))
+            ri = Obj(is_name=True, name='ident', params=(), kwparams={})
+            it = ModelInterp(a, {'boundcall': Hook(lambda act, known, *args, **kw: (seen.append(args[0]), 'ACTION-RESULT')[1])})
+            try:
+                got = it.call_bound(Bound(me, sc), [ri, node, 0], {})
+                outcome = 'returns'
+            except Raised as r:
+                got, outcome = r.cls_name, 'raises'
+            except Unsupported as e:
+                raise AnalysisError(f'C11.R4: cannot interpret semantics_call: {e}') from e
+            if is_kw:
+                ok = outcome == 'raises'
+            elif with_action:
+                ok = outcome == 'returns' and got == 'ACTION-RESULT' and len(seen) == 1 and seen[0] is node
+            else:
+                ok = outcome == 'returns' and got is node
+            rep.add({'ignorecase': ignorecase, 'action': with_action, 'matched': text, 'reserved': is_kw, 'outcome': outcome,
+                     'value': repr(got if not with_action or is_kw else seen[:1])[:40], 'ok': ok})
+            if not ok:
+                rep.fail(sc.qualname, f'name-value:{ignorecase}:{with_action}:{text}', f'@name rule, ignorecase={ignorecase}, {"with" if with_action else "without"} a semantic '
+                         f'action, matched {text!r} ({"a reserved word" if is_kw else "not reserved"}): semantics_call {outcome} {got!r}' + (
+                             f', the action received {seen}' if with_action else '') + '; required: ' + (
+                             'the keyword failure' if is_kw else 'the matched value itself, unchanged'), sc.loc)
+    return rep
+
+
+RULES = [r1_placement, r2_folding, r3_generated, r4_accepted_names_unchanged]
